@@ -4,7 +4,7 @@
    Part 2: inlines (all of them, footnote references included).
    Part 3: blocks of the fragment without tables and footnote definitions, documents. *)
 From Coq Require Import List NArith Bool Lia PeanoNat Strings.String.
-From V Require Import Base.Bytes Base.Res Gen.Tables Gen.Ctype Gen.Scanners Model.Escape Model.Tagfilter0
+From V Require Import Base.Bytes Base.Res Gen.Tables Gen.Ctype Gen.Scanners Model.Escape Model.Tagfilter
      Model.Ast Spec.EscapeSpec Model.Html Proofs.EscapeProofs Proofs.HtmlSafe Spec.Doc.
 Import ListNotations.
 Local Open Scope string_scope.
